@@ -175,16 +175,20 @@ CLAIMS["C01"] = dict(
         "proved; for the explored cases the equality is machine-checked case by case. The evaluator's agreement with the "
         "relation is by construction, not yet a theorem. Known finding: lookahead over a forced item consumes.")
 CLAIMS["C19"] = dict(
-   text="Coq theorems (Props/C19.v), the empty-marker half in full: for every grammar, token list, position and action "
+   text="Coq theorems (Props/C19.v), both halves. Empty marker: for every grammar, token list, position and action "
         "interpretation, an item (rule) that the reference PEG semantics matches WITHOUT consuming is nullable under every "
         "assignment closed under the equations of the extracted table (induction on PEG derivations), hence -- with the "
-        "least-fixed-point theorem of C03 -- flagged nullable by the analysis, which is when FirstSetCalculator adds ''. The "
-        "table conditions are decidable and re-proved each run. The first-token half is decided by the model "
-        "(Analysis/FirstSets.v, tied by K-first on hand-written and random grammars) plus a brute-force oracle on the "
-        "implementation: first tokens of all successful matches of every rule on all inputs up to length 3.",
-   design="6/C19", technique="Coq proof by induction on PEG derivations (empty marker) + FIRST-set model correspondence + brute-force first-token oracle",
-   note="Partial: soundness of the first-token half is not yet a theorem (it needs the closedness of the computed table and "
-        "the lookahead-subtraction argument); it is covered by correspondence and the oracle.")
+        "least-fixed-point theorem of C03 -- flagged nullable, which is when FirstSetCalculator adds ''. First token "
+        "(C19_first_token_sound): for every grammar whose lookahead operands are single tokens and every table CLOSED under "
+        "the FIRST equations (Analysis/FirstPure.v: per-alternative scan with early stop, negative-lookahead subtraction, "
+        "gather separator, evaluated with the analysis' nullable flags), the first token of every consuming match of a rule "
+        "is described by a member of the rule's set (induction on PEG derivations, invariant for what negative lookaheads "
+        "excluded at the position). Every run evaluates the decidable instance conditions (table conditions, closedness of "
+        "the table the REAL calculator computes, class membership) on each explored grammar, ties Analysis/FirstSets.v to "
+        "the calculator (K-first), and runs a brute-force first-token oracle on the implementation (all inputs up to length 3).",
+   design="6/C19", technique="Coq proofs by induction on PEG derivations (empty marker; first-token soundness of closed tables) + per-grammar instance conditions on the real table + brute-force oracle",
+   note="The theorem is about closed tables; that the calculator's table is closed is checked per explored grammar, not "
+        "proved for all grammars (with left recursion it is not closed, which is outside the property's class).")
 CLAIMS["C07"] = dict(
    text="Partial (clauses ii-iv on the error-construction path this repository owns; clause i -- refuses exactly what the "
         "host interpreter refuses -- is not covered, see DESIGN.md section 11). Coq (Props/C07.v, instances of the C14 line "
